@@ -38,6 +38,24 @@ def is_full_removal(site):
 ITER_BAD = {"rev", "skip", "take", "step_by", "filter", "skip_while", "take_while", "filter_map", "rposition", "next_back", "nth", "nth_back", "last", "chain", "zip", "cycle", "peekable", "map_while"}
 
 
+def _replaced_by_param(ctx, s):
+    """the clear() at site s is directly followed, on every path, by `same_list.extend(<a parameter>)`"""
+    body = s.body
+    bp = ctx.prog.bp(body)
+    lst = strip_wrap(bp.arg_term(s.bb, 0))
+    pe = ctx.paths(body)
+    seen = False
+    for p in pe.paths:
+        evs = [e for e in p.calls() if e.args and strip_wrap(e.args[0]) == lst and (e.ck.startswith("std::vec::Vec::") or e.ck == "std::iter::Extend::extend")]
+        for i, e in enumerate(evs):
+            if e.site is not None and e.site.bb == s.bb and e.ck.endswith("::clear"):
+                seen = True
+                nxt = evs[i + 1] if i + 1 < len(evs) else None
+                if nxt is None or nxt.ck != "std::iter::Extend::extend" or len(nxt.args) < 2 or strip_wrap(nxt.args[1])[0] != "param":
+                    return False
+    return seen
+
+
 def su1_mutators(ctx, rep, marker="Subscriber<", what="subscriber list", floors=(1, 1, 1)):
     R = "SU1"
     n_push = n_retain = n_clear = 0
@@ -82,6 +100,8 @@ def rg1_registration_order(ctx, rep):
                 if m in ITER_BAD:
                     rep.bad(R, "iterator-adaptor:%s:%s" % (m, fn), s.where, "%s is traversed through .%s()" % (what, m))
                 continue
+            if m == "clear" and _replaced_by_param(ctx, s):
+                continue  # `v.clear(); v.extend(param)`: the list is replaced by the caller's vector, in its order
             if m in REORDERERS or m in REMOVERS:
                 rep.bad(R, "order-breaking-mutator:%s:%s" % (m, fn), s.where, "%s is modified with %s" % (what, m))
             elif m in APPENDERS:
